@@ -49,6 +49,9 @@ impl Diagnostic {
         lookup: &line_col::LineColLookup,
         e: ParseError,
     ) -> Option<Diagnostic> {
+        #[cfg(feature = "verif-hooks")]
+        verif_record_expected(&e);
+
         match e {
             lalrpop_util::ParseError::InvalidToken { location } => Some(Diagnostic {
                 kind: DiagnosticKind::Error,
@@ -103,4 +106,33 @@ fn expected_token_str(v: &[String]) -> String {
             v[v.len() - 1]
         ),
     }
+}
+
+#[cfg(feature = "verif-hooks")]
+thread_local! {
+    static VERIF_EXPECTED: std::cell::RefCell<Vec<(&'static str, Vec<String>)>> =
+        std::cell::RefCell::new(Vec::new());
+}
+
+/// Verification hook: record the raw expectation set of each parse error about to be formatted
+#[cfg(feature = "verif-hooks")]
+fn verif_record_expected(e: &ParseError) {
+    let entry = match e {
+        lalrpop_util::ParseError::InvalidToken { .. } => ("InvalidToken", Vec::new()),
+        lalrpop_util::ParseError::UnrecognizedEOF { expected, .. } => {
+            ("UnrecognizedEOF", expected.clone())
+        }
+        lalrpop_util::ParseError::UnrecognizedToken { expected, .. } => {
+            ("UnrecognizedToken", expected.clone())
+        }
+        lalrpop_util::ParseError::ExtraToken { .. } => ("ExtraToken", Vec::new()),
+        lalrpop_util::ParseError::User { .. } => ("User", Vec::new()),
+    };
+    VERIF_EXPECTED.with(|v| v.borrow_mut().push(entry));
+}
+
+/// Verification hook: drain the expectation sets recorded on this thread, in emission order
+#[cfg(feature = "verif-hooks")]
+pub fn verif_take_expected() -> Vec<(&'static str, Vec<String>)> {
+    VERIF_EXPECTED.with(|v| std::mem::take(&mut *v.borrow_mut()))
 }
